@@ -293,7 +293,7 @@ def normalize_steps(src, report):
                 and ast.unparse(expr.args[2]) == 'source'):
             pat, rep = expr.args[0], expr.args[1]
             if isinstance(pat, ast.Constant) and isinstance(rep, ast.Constant):
-                if (pat.value, rep.value) == (r'(?<=\n) +\n', '\n'): return ['wsLine']
+                if (pat.value, rep.value) == (r'(?<![^\n]) +\n', '\n'): return ['wsLine']   # since the repair of F-C09-1 (was `(?<=\\n) +\\n`)
                 raise Mismatch('re.sub%r' % ((pat.value, rep.value),))
         if isinstance(expr, ast.Call) and isinstance(expr.func, ast.Attribute):
             m = expr.func.attr
